@@ -29,6 +29,7 @@ func c12Judge(w *mon.W, caseID, s string) {
 		w.Violation(caseID, fmt.Sprintf("RotateSequence(%q) %s", clip(s, 200), p), map[string]any{"input": s})
 		return
 	}
+	retainCheck(w, caseID, "RotateSequence", got, "seqhash.RotateSequence of "+clip(s, 60))
 	want := oracle.LeastRotation(s)
 	if len(s) <= 64 {
 		if tp := oracle.LeastRotationTwoPointer(s); tp != want {
